@@ -11,10 +11,12 @@ def isSigEv {α} : Ev α → Bool
   | _ => false
 
 /-- call `next()` `n` times on a machine iterator; one record per call -/
-def driveSegs {α} (cx : Ctx α) (steps : Array (Step α)) (src : Src α) (valuesOnly : Bool) :
+def driveSegs {α} (cx : Ctx α) (steps : Array (Step α)) (src : Src α) (valuesOnly : Bool) (reiterAt : Option Nat := none) :
     Nat → St α → List Json
   | 0, _ => []
   | n+1, st =>
+    -- `iter(it)` is called again before the call that leaves `n` more calls to go
+    let st := if reiterAt == some (n+1) then reiter st else st
     let (st', evs, sig) := next cx.view steps src cx.limit st
     let evsJ := (evs.filter (fun e => !isSigEv e)).map (encEv cx.toJ)
     let sigJ : Json := match sig with
@@ -23,7 +25,7 @@ def driveSegs {α} (cx : Ctx α) (steps : Array (Step α)) (src : Src α) (value
       | .raised e => .arr #[.str "X", encExc e]
       | .none => .arr #[.str "BUG", .str "none"]
       | .bug m => .arr #[.str "BUG", .str m]
-    Json.mkObj [("e", .arr evsJ.toArray), ("s", sigJ)] :: driveSegs cx steps src valuesOnly n st'
+    Json.mkObj [("e", .arr evsJ.toArray), ("s", sigJ)] :: driveSegs cx steps src valuesOnly reiterAt n st'
 
 /-- all results of a machine iterator (used to pick the source match of a nested search) -/
 def drainMach {α} (cx : Ctx α) (steps : Array (Step α)) (src : Src α) : Nat → St α → List (MNode α)
@@ -37,6 +39,7 @@ def drainMach {α} (cx : Ctx α) (steps : Array (Step α)) (src : Src α) : Nat 
 structure QOpts where
   api : String
   nexts : Nat
+  reiterAt : Option Nat := none   -- index of the call before which `iter(it)` is called again
   mustMatch : Bool
   dflt : Option (Bool × J)     -- (callable?, value)
 
@@ -49,7 +52,8 @@ def decOpts (j : Json) : E QOpts := do
     | .arr #[.str "const", v] => do pure (some (false, ← decJ v))
     | .arr #[.str "call", v] => do pure (some (true, ← decJ v))
     | other => jErr "bad default" other
-  return { api := api, nexts := nexts, mustMatch := mm, dflt := d }
+  let ra := match (fieldD j "reiter_at" .null).getNat? with | .ok n => some n | .error _ => none
+  return { api := api, nexts := nexts, reiterAt := ra, mustMatch := mm, dflt := d }
 
 /-- outcome of get / get_match given the first `next()` signal -/
 def projectFirst {α} (toJ : α → J) (o : QOpts) (nested : Bool) (sig : Sig α) : List Json × Json :=
@@ -71,7 +75,7 @@ def projectFirst {α} (toJ : α → J) (o : QOpts) (nested : Bool) (sig : Sig α
 def machRecord {α} (cx : Ctx α) (steps : List (Step α)) (src : Src α) (nested : Bool) (o : QOpts) : Json :=
   let arr := steps.toArray
   if o.api == "find_matches" || o.api == "find" then
-    .arr (driveSegs cx arr src (o.api == "find") o.nexts {}).toArray
+    .arr (driveSegs cx arr src (o.api == "find") (o.reiterAt.map fun k => o.nexts - k) o.nexts {}).toArray
   else
     let (_, evs, sig) := next cx.view arr src cx.limit {}
     let evsJ := (evs.filter (fun e => !isSigEv e)).map (encEv cx.toJ)
